@@ -350,7 +350,14 @@ func (nd *Node) build(base crypto.Base) error {
 	nd.cio = server.NewClientIO(nd.el, nd.log, nd.cache)
 	nd.sync = synchronizer.New(nd.el, nd.log, nd.cfg, nd.auth, nd.leader, nd.vd,
 		synchronizer.NewTimeoutRuler(nd.cfg, nd.auth), nd.prop, nd.voter, nd.states, nd.sender)
-	nd.svc = server.VerifNewService(nd.el, nd.log, nd.cfg, nd.bc)
+	var locations []string
+	if p.knob("latmatrix", 0) == 1 {
+		// latency emulation switched on, every replica in one place (zero delay: only the bookkeeping runs)
+		for i := 0; i < p.N; i++ {
+			locations = append(locations, "Oslo")
+		}
+	}
+	nd.svc = server.VerifNewService(nd.el, nd.log, nd.cfg, nd.bc, locations)
 	nd.lastView = nd.states.View()
 	return nil
 }
